@@ -41,6 +41,7 @@ func (c *mapCache) Set(k string, v int)      { c.mu.Lock(); defer c.mu.Unlock();
 type composeSlice struct {
 	onEvent func(name string)
 	now      int64
+	mute     map[int]bool // positions whose policy is built WITHOUT any listener (code paths guarded by `listener != nil`)
 	breakers []circuitbreaker.CircuitBreaker[int]
 	bulks    []bulkhead.Bulkhead[int]
 	bulkCaps []int
@@ -189,6 +190,10 @@ func (s *composeSlice) build() {
 			}
 			applyConds(t[3], func(e ...error) { b.HandleErrors(e...) }, func(a ...any) { b.HandleErrorTypes(a...) }, func(r int) { b.HandleResult(r) }, func(p func(int, error) bool) { b.HandleIf(p) })
 			applyConds(t[4], func(e ...error) { b.AbortOnErrors(e...) }, func(a ...any) { b.AbortOnErrorTypes(a...) }, func(r int) { b.AbortOnResult(r) }, func(p func(int, error) bool) { b.AbortIf(p) })
+			if s.mute[pos] {
+				s.policies = append(s.policies, b.Build())
+				continue
+			}
 			b.OnFailure(func(e failsafe.ExecutionEvent[int]) { s.emit("rp.onFailure"+seenBy(e)+fl(e), pos, e.Attempts(), e.Executions()) }).
 				OnSuccess(func(e failsafe.ExecutionEvent[int]) { s.emit("rp.onSuccess"+seenBy(e)+fl(e), pos, e.Attempts(), e.Executions()) }).
 				OnAbort(func(e failsafe.ExecutionEvent[int]) { s.emit("rp.onAbort"+seenBy(e)+fl(e), pos, e.Attempts(), e.Executions()) }).
@@ -226,6 +231,10 @@ func (s *composeSlice) build() {
 				return fbVal, fbErr
 			})
 			applyConds(t[3], func(e ...error) { b.HandleErrors(e...) }, func(a ...any) { b.HandleErrorTypes(a...) }, func(r int) { b.HandleResult(r) }, func(p func(int, error) bool) { b.HandleIf(p) })
+			if s.mute[pos] {
+				s.policies = append(s.policies, b.Build())
+				continue
+			}
 			b.OnFailure(func(e failsafe.ExecutionEvent[int]) { s.emit("fb.onFailure"+seenBy(e)+fl(e), pos, e.Attempts(), e.Executions()) }).
 				OnSuccess(func(e failsafe.ExecutionEvent[int]) { s.emit("fb.onSuccess"+seenBy(e)+fl(e), pos, e.Attempts(), e.Executions()) }).
 				OnFallbackExecuted(func(e failsafe.ExecutionDoneEvent[int]) { s.emit("fb.onFallbackExecuted", pos, e.Attempts(), e.Executions()) })
@@ -243,11 +252,19 @@ func (s *composeSlice) build() {
 					b.CacheIf(predicate(int(atoi(c))))
 				}
 			}
+			if s.mute[pos] {
+				s.policies = append(s.policies, b.Build())
+				continue
+			}
 			b.OnCacheHit(func(e failsafe.ExecutionDoneEvent[int]) { s.emit("ca.onHit", pos, e.Attempts(), e.Executions()) }).
 				OnCacheMiss(func(e failsafe.ExecutionEvent[int]) { s.emit("ca.onMiss"+fl(e), pos, e.Attempts(), e.Executions()) }).
 				OnResultCached(func(e failsafe.ExecutionEvent[int]) { s.emit("ca.onCache"+fl(e), pos, e.Attempts(), e.Executions()) })
 			s.policies = append(s.policies, b.Build())
 		case "timeout":
+			if s.mute[pos] {
+				s.policies = append(s.policies, timeout.Builder[int](composeTimeout).Build())
+				continue
+			}
 			tb := timeout.Builder[int](composeTimeout).OnTimeoutExceeded(func(e failsafe.ExecutionDoneEvent[int]) {
 				s.emit("to.onTimeoutExceeded", pos, e.Attempts(), e.Executions())
 			})
@@ -257,6 +274,10 @@ func (s *composeSlice) build() {
 		case "hedge":
 			b := hedgepolicy.BuilderWithDelay[int](composeHedgeDelay).WithMaxHedges(int(atoi(t[1])))
 			applyConds(t[2], func(e ...error) { b.CancelOnErrors(e...) }, func(a ...any) { b.CancelOnErrorTypes(a...) }, func(r int) { b.CancelOnResult(r) }, func(p func(int, error) bool) { b.CancelIf(p) })
+			if s.mute[pos] {
+				s.policies = append(s.policies, b.Build())
+				continue
+			}
 			b.OnHedge(func(e failsafe.ExecutionEvent[int]) { s.emit("hp.onHedge"+fl(e), pos, e.Attempts(), e.Executions()) })
 			s.policies = append(s.policies, b.Build())
 			_ = b.WithMaxHedges(0).OnHedge(func(e failsafe.ExecutionEvent[int]) { s.emit("DECOY.hp", pos, e.Attempts(), e.Executions()) }).Build()
@@ -385,6 +406,14 @@ func (s *composeSlice) exec(t []string) string {
 		return ""
 	case "adv":
 		s.now += atoi(t[1])
+		return ""
+	case "mute":
+		if s.mute == nil {
+			s.mute = map[int]bool{}
+		}
+		for _, p := range strings.Split(t[1], ",") {
+			s.mute[int(atoi(p))] = true
+		}
 		return ""
 	case "run", "runa":
 		if !s.built {
@@ -747,6 +776,24 @@ func genCompose(r *rand.Rand, n int, tier string, emit func(string) string) {
 		for _, l := range pols {
 			emit("compose " + l)
 		}
+		// a quarter of the cases build some of their policies without any listener: the library guards every listener call with
+		// `!= nil`, and what it computes for a listener (execution copies, results) must not be what the execution itself uses
+		retryMuted := false
+		if len(pols) > 0 && r.Intn(4) == 0 {
+			var mp []string
+			for pos, pl := range pols {
+				kind := strings.Fields(pl)[1]
+				if (kind == "retry" || kind == "fallback" || kind == "cache" || kind == "timeout" || kind == "hedge") && r.Intn(2) == 0 {
+					mp = append(mp, strconv.Itoa(pos))
+					if kind == "retry" {
+						retryMuted = true
+					}
+				}
+			}
+			if len(mp) > 0 {
+				emit("compose mute " + strings.Join(mp, ","))
+			}
+		}
 		runs := 1 + r.Intn(5)
 		for k := 0; k < runs; k++ {
 			if nbh > 0 && r.Intn(3) == 0 {
@@ -804,6 +851,9 @@ func genCompose(r *rand.Rand, n int, tier string, emit func(string) string) {
 					cause = "async"
 				}
 				point := pick(r, "fn", "fn", "sched")
+				if retryMuted {
+					point = "fn" // the OnRetryScheduled listener is the cancellation point: it must exist
+				}
 				if blockedSeen {
 					// after an attempt its Timeout cut short, only a later invocation is a cancellation point: the Timeout's
 					// stored result stays the execution's cancel result until the next attempt is initialised, so a cancellation
